@@ -36,7 +36,14 @@ def run(job):
     out = {"head": head, "tier": tier}
     ap = sh("git", "-C", scr, "apply", os.path.join(d, "patch.diff"))
     if ap.returncode != 0:
-        out["error"] = "patch does not apply: " + ap.stderr[-200:]
+        # later repairs moved the context: three-way merge against the blobs the patch names
+        ap = sh("git", "-C", scr, "apply", "--3way", os.path.join(d, "patch.diff"))
+        out["applied_with"] = "3way"
+        if ap.returncode == 0 and "<<<<<<<" in sh("git", "-C", scr, "diff").stdout:
+            ap = subprocess.CompletedProcess([], 1, "", "three-way merge left conflicts")
+    if ap.returncode != 0:
+        out["error"] = "patch does not apply to this HEAD (a later repair rewrote the same lines): " + ap.stderr[-200:]
+        sh("git", "-C", scr, "reset", "-q", "--hard", head)
         return sid, out
     try:
         out["demo_with_patch_exit"] = sh(PY, os.path.join(d, "demo.py"), cwd=scr).returncode
@@ -49,7 +56,7 @@ def run(job):
         out["monitors"] = [ln.split("monitor=")[1].split()[0] for ln in r.stdout.splitlines()
                            if ln.startswith("VIOLATION") and "monitor=" in ln][:8]
     finally:
-        sh("git", "-C", scr, "checkout", "--", ".")
+        sh("git", "-C", scr, "reset", "-q", "--hard", head)
     return sid, out
 
 
